@@ -52,7 +52,7 @@ def probe(seed, n):
         exec(src, ns)
         f = ns["f"]
         stats["functions"] += 1; stats["with_pre"] += bool(pres)
-        count = rnd.randint(1, 40); s = rnd.randint(0, 10**6)
+        count = rnd.randint(1, 40); s = rnd.choice([0, 0, 1, rnd.randint(0, 10**6), rnd.randint(0, 10**6)])      # 0 is a seed like any other
         fixed = {}
         if rnd.random() < .4:
             i = rnd.randrange(len(names))
